@@ -119,17 +119,31 @@ def hypergeom_conf_interval(n, x, N, cl=0.975, alternative="two-sided", G=None,
     if alternative == 'two-sided':
         cl = 1 - (1 - cl) / 2
 
+    # G is an integer: search the integers directly (the hypergeometric cdf is
+    # undefined for non-integer G, so a real-valued root finder cannot be used).
+    # Both tail probabilities are monotone in G, and only x <= G <= N-(n-x) is
+    # compatible with the observed sample.
     if alternative != "upper" and x > 0:
         f = lambda q: cl - hypergeom.cdf(x - 1, N, q, n)
-        while f(G) < 0:
-            G = (G+N)/2
-        ci_low = math.ceil(brentq(f, 0.0, G, *kwargs))
+        lo, hi = x, N - (n - x)
+        while lo < hi:               # smallest G with f(G) >= 0
+            mid = (lo + hi) // 2
+            if f(mid) >= 0:
+                hi = mid
+            else:
+                lo = mid + 1
+        ci_low = lo
 
     if alternative != "lower" and x < n:
         f = lambda q: hypergeom.cdf(x, N, q, n) - (1 - cl)
-        while f(G) < 0:
-            G = G/2
-        ci_upp = math.floor(brentq(f, G, N, *kwargs))
+        lo, hi = x, N - (n - x)
+        while lo < hi:               # largest G with f(G) >= 0
+            mid = (lo + hi + 1) // 2
+            if f(mid) >= 0:
+                lo = mid
+            else:
+                hi = mid - 1
+        ci_upp = lo
 
     return ci_low, ci_upp
 
